@@ -18,7 +18,51 @@ SLOTS = ['Transition._source', 'Transition._target', 'CompoundState.initial', 'H
          "parent's children list", 'keys of _states', 'keys of _parent', 'keys of _children', 'StateMixin._name']
 
 
+NAME_FIELDS = {'_source', '_target', 'initial', '_initial', 'memory', '_memory', '_name', '_parent', '_children', '_states'}
+
+
+def rules_nothing_else(run):
+    """rename_state changes nothing but the name: everything it writes (itself or through what it calls) is a name-bearing slot or a derived cache - no code, no
+    contract, no priority, and no attribute chosen at run time."""
+    from .c16 import derived_caches
+    prog = run.prog
+    r = run.rule('C17.8', 'rename_state writes name-bearing slots only (transition ends, initial, memory, the name, the three structures and derived caches): no guard, '
+                          'action, entry / exit code, contract or priority is rewritten, and no attribute is set through setattr / __dict__')
+    fi = run.fn('Statechart.rename_state')
+    memo = set(derived_caches(prog))
+    W = prog.transitive_writes([fi])
+    n = 0
+    for (c, f), sites in sorted(W.items()):
+        n += 1
+        okk = f in NAME_FIELDS or (c == 'Statechart' and f in memo)
+        if not okk and all(isinstance(node, (ast.Assign, ast.AugAssign, ast.Expr, ast.Call)) and prog.func_of(node) is not None and
+                           _local_container(prog.func_of(node), node) for fn_, kind, node in sites):
+            okk = True
+        run.check(okk, r, sites[0][0].short, 'write %s.%s is a name-bearing slot' % (c, f), 'rename_state rewrites %s.%s: more than the name changes (code mentioning the name as '
+                  'a string - an event called like the state - changes meaning)' % (c, f), sites[0][2])
+    run.floor(n, 6, r, 'fields written by rename_state')
+    dyn = 0
+    for qual, (f, _) in prog.reachable([fi]).items():
+        if not f.module.name.startswith('sismic.model'):
+            continue
+        for c in q.calls(f.node):
+            if isinstance(c.func, ast.Name) and c.func.id in ('setattr', 'delattr') and not (len(c.args) >= 2 and isinstance(c.args[1], ast.Constant)):
+                dyn += 1
+                run.fail(r, f.short, 'attribute chosen at run time: ' + q.unparse(c)[:50], 'rename_state (through %s) sets attributes whose names are computed: what it changes '
+                         'cannot be bounded to the name-bearing slots' % f.short, c)
+        for n_ in q.walk(f.node):
+            if isinstance(n_, ast.Attribute) and n_.attr == '__dict__' and isinstance(getattr(n_, '_parent', None), ast.Subscript) and \
+                    isinstance(n_._parent.ctx, (ast.Store, ast.Del)):
+                run.fail(r, f.short, 'write through __dict__', 'rename_state writes attributes through __dict__', n_)
+    run.ok(r, fi.short, 'no run-time chosen attribute is written on the paths from rename_state', fi.node)
+
+
+def _local_container(f, node):
+    return False
+
+
 def check(run):
+    run.guard(rules_nothing_else, run)
     run.guard(rules_rename, run, 'C17')
     run.guard(rules_copy, run, 'C17')
     from .c16 import rules_caches
